@@ -128,6 +128,11 @@ type world struct {
 	uni   []item
 	dead  bool
 	idles map[int]*idleT // per command id
+	// syncLit: the server advertises no non-synchronising literals; appends: per APPEND command, closed once the
+	// literal has been written by the client (the continuation request was honoured)
+	syncLit bool
+	caps    string
+	appends map[int]chan struct{}
 }
 
 // idleT is the harness side of one IDLE command
@@ -165,9 +170,14 @@ func statusOf(err error) string {
 	return "ERR"
 }
 
-func newWorld(greet string) (*world, error) {
+func newWorld(greet, variant string) (*world, error) {
 	c, s := vh.NewConnPair()
-	w := &world{srv: s, br: bufio.NewReader(s), idles: map[int]*idleT{}}
+	w := &world{srv: s, br: bufio.NewReader(s), idles: map[int]*idleT{}, syncLit: variant == "synclit", appends: map[int]chan struct{}{}}
+	if w.syncLit {
+		w.caps = strings.Replace(capsC0, " LITERAL+", "", 1)
+	} else {
+		w.caps = capsC0
+	}
 	opts := &imapclient.Options{UnilateralDataHandler: &imapclient.UnilateralDataHandler{
 		Expunge: func(seq uint32) { w.addUni(item{"expunge", float64(seq), "none"}) },
 		Mailbox: func(d *imapclient.UnilateralDataMailbox) {
@@ -194,7 +204,7 @@ func newWorld(greet string) (*world, error) {
 	if greet != "OK" && greet != "PREAUTH" {
 		return nil, fmt.Errorf("harness: unknown greeting %q", greet)
 	}
-	s.Write([]byte("* " + greet + " [CAPABILITY " + capsC0 + "] ready\r\n"))
+	s.Write([]byte("* " + greet + " [CAPABILITY " + w.caps + "] ready\r\n"))
 	w.cl = imapclient.New(c, opts)
 	if err := w.cl.WaitGreeting(); err != nil {
 		return nil, err
@@ -512,8 +522,9 @@ func (w *world) submit(kind, arg string) error {
 			fin(statusOf(err), acc)
 		}()
 	case "APPEND":
-		cmd := w.cl.Append("A", 5, nil)
 		go func() {
+			// with a synchronising literal Append itself waits for the continuation request (or the refusal)
+			cmd := w.cl.Append("A", 5, nil)
 			cmd.Write([]byte("hello"))
 			cmd.Close()
 			d, err := cmd.Wait()
@@ -545,8 +556,14 @@ func (w *world) submit(kind, arg string) error {
 	}
 	tag, text, err := w.readCmd()
 	if err == nil && kind == "APPEND" {
-		// the message follows as a non-synchronising literal (LITERAL+ is advertised)
-		err = w.readAppendLiteral(text)
+		if w.syncLit {
+			if !strings.HasSuffix(text, "{5}") {
+				err = fmt.Errorf("APPEND without synchronising literal although LITERAL+ is not advertised: %q", text)
+			}
+		} else {
+			// the message follows as a non-synchronising literal (LITERAL+ is advertised)
+			err = w.readAppendLiteral(text)
+		}
 	}
 	if err != nil {
 		return err
@@ -652,6 +669,18 @@ func (w *world) step(ev *event) error {
 	case "Enabled":
 		w.write("* ENABLED UTF8=ACCEPT")
 	case "Cont":
+		if ev.N1 >= 1 && ev.N1 <= len(w.kinds) && w.kinds[ev.N1-1] == "APPEND" {
+			w.write("+ go ahead")
+			buf := make([]byte, 7)
+			w.srv.SetReadDeadline(time.Now().Add(3 * time.Second))
+			if _, err := io.ReadFull(w.br, buf); err != nil {
+				return fmt.Errorf("reading the synchronising literal after the continuation request: %v", err)
+			}
+			if string(buf) != "hello\r\n" {
+				return fmt.Errorf("after the continuation request the client sent %q", buf)
+			}
+			return nil
+		}
 		id := w.idles[ev.N1]
 		if id == nil {
 			return fmt.Errorf("harness: command %d is not an IDLE", ev.N1)
@@ -691,7 +720,7 @@ func (w *world) step(ev *event) error {
 		if ev.S1 == "OK" {
 			switch w.kinds[id-1] {
 			case "LOGIN", "UNAUTH":
-				text = "[CAPABILITY " + capsC0 + "] done"
+				text = "[CAPABILITY " + w.caps + "] done"
 			case "COPY":
 				if ev.N2 != 0 {
 					text = fmt.Sprintf("[COPYUID %d 1:2 5:6] copied", ev.N2)
@@ -823,7 +852,7 @@ func replay(beh []event) (*verdict, int, bool, error) {
 	if len(beh) == 0 || beh[0].Act != "Greet" {
 		return nil, 0, false, fmt.Errorf("harness: a behaviour starts with the greeting")
 	}
-	w, err := newWorld(beh[0].S1)
+	w, err := newWorld(beh[0].S1, beh[0].S2)
 	if err != nil {
 		return nil, 0, false, err
 	}
@@ -839,6 +868,14 @@ func replay(beh []event) (*verdict, int, bool, error) {
 		}
 		// while an IDLE occupies the connection no command can be sent: what the step implies is then
 		// observable without a round trip (the handler is called after the state has been updated)
+		if !w.dead && ev.Exp.NoBarrier {
+			// no round trip: wait until the client's reader has taken everything it was sent and is back
+			// waiting for more (it processes what it has before it reads again)
+			deadline := time.Now().Add(3 * time.Second)
+			for !w.srv.PeerBlockedInRead() && time.Now().Before(deadline) {
+				time.Sleep(20 * time.Microsecond)
+			}
+		}
 		if !w.dead && !ev.Exp.NoBarrier {
 			if err := w.barrier(); err != nil {
 				return &verdict{"barrier-failed/" + ev.Act, err.Error(), i}, i + 1, nontrivial, nil
